@@ -2,6 +2,8 @@ package main
 
 import (
 	"fmt"
+	"go/types"
+	"go/token"
 	"sort"
 	"strings"
 
@@ -136,13 +138,167 @@ func init() {
 			"R3": "timer callback: an If on (captured G == current handler field G), the captured value tracing to a load of G in the arming function; the comparison has the handler mutex in its must-lockset; no may-demote call reachable from the differs edge; a demotion is reachable from the callback; G = G+1 dominates time.AfterFunc in the arming function and occurs in every function that calls Stop on the timer field",
 			"R4": "the reconnect root stops the grace timer; under claim==true it spawns a tracked verification; in the verification every return is preceded by a demotion or dominated by Get err==nil, validate err==nil and verdict true",
 			"R5": "no self-relock; lock graph acyclic; no OnDemote/OnPromote invocation with a library mutex in the may-lockset",
+			"R6": "in every type implementing ConnectionMonitor, each call of a handler stored in a func-typed field (registered through OnDisconnect / OnReconnect) is controlled by nothing but the nil test of that handler: every notification of the client reaches the election (the grace period counts from the latest disconnect; every reconnect cancels the timer)",
 		},
 	})
+}
+
+// monitorForwardsRule (C11-R6): the connection monitor hands every notification of the client on
+// to the registered handler. A monitor that "de-duplicates" notifications by its own status word
+// drops the reconnect that should cancel the grace timer whenever somebody else (the reconnect
+// verification) has written that word in between.
+func monitorForwardsRule(c *Ctx, rule string) {
+	m := c.M
+	obj, _ := m.P.Leader.Pkg.Scope().Lookup("ConnectionMonitor").(*types.TypeName)
+	if obj == nil {
+		c.undecided(rule, "ConnectionMonitor", nil, "interface not found")
+		return
+	}
+	iface, _ := obj.Type().(*types.Named)
+	n := 0
+	handled := map[string]bool{}
+	for _, t := range m.implementers(iface) {
+		st, _ := t.Underlying().(*types.Struct)
+		if st == nil {
+			continue
+		}
+		// the handler fields: those stored by the interface's registration methods (one func parameter)
+		registered := map[string]bool{}
+		it := iface.Underlying().(*types.Interface)
+		for i := 0; i < it.NumMethods(); i++ {
+			sig := it.Method(i).Type().(*types.Signature)
+			if sig.Params().Len() != 1 {
+				continue
+			}
+			if _, isFn := sig.Params().At(0).Type().Underlying().(*types.Signature); !isFn {
+				continue
+			}
+			if reg := m.methodOf(t, it.Method(i).Name()); reg != nil {
+				eachInstr(reg, func(x ssa.Instruction) {
+					if sto, ok := x.(*ssa.Store); ok {
+						if fa, ok := sto.Addr.(*ssa.FieldAddr); ok && namedOf(fa.X.Type()) == t {
+							registered[st.Field(fa.Field).Name()] = true
+						}
+					}
+				})
+			}
+		}
+		// the handler fields a called function value may come from: a load of the field, directly
+		// or through a getter that returns it
+		var fieldsOf func(v ssa.Value, depth int) ([]string, bool)
+		fieldsOf = func(v ssa.Value, depth int) ([]string, bool) {
+			if depth > 3 {
+				return nil, false
+			}
+			v = m.traceValue(v)
+			switch x := v.(type) {
+			case *ssa.UnOp:
+				if fa, ok := x.X.(*ssa.FieldAddr); ok && x.Op == token.MUL && namedOf(fa.X.Type()) == t {
+					if _, isSig := st.Field(fa.Field).Type().Underlying().(*types.Signature); isSig && registered[st.Field(fa.Field).Name()] {
+						return []string{st.Field(fa.Field).Name()}, true
+					}
+				}
+				// a load through a pointer parameter: the slot the callers pass (&m.onDisconnect)
+				if par, ok := x.X.(*ssa.Parameter); ok && x.Op == token.MUL {
+					idx := -1
+					for i, q := range par.Parent().Params {
+						if q == par {
+							idx = i
+						}
+					}
+					var out []string
+					for _, site := range m.callers[par.Parent()] {
+						args := site.Instr.Common().Args
+						if idx < 0 || idx >= len(args) {
+							return nil, false
+						}
+						fa, ok := m.traceValue(args[idx]).(*ssa.FieldAddr)
+						if !ok || namedOf(fa.X.Type()) != t || !registered[st.Field(fa.Field).Name()] {
+							return nil, false
+						}
+						out = append(out, st.Field(fa.Field).Name())
+					}
+					return out, len(out) > 0
+				}
+			case *ssa.Phi:
+				var out []string
+				for _, e := range x.Edges {
+					if cst, ok := e.(*ssa.Const); ok && cst.IsNil() {
+						continue
+					}
+					r, ok := fieldsOf(e, depth+1)
+					if !ok {
+						return nil, false
+					}
+					out = append(out, r...)
+				}
+				return out, len(out) > 0
+			case *ssa.Call:
+				g := x.Call.StaticCallee()
+				if g == nil || !m.isLib(g) || g.Blocks == nil || g.Signature.Results().Len() != 1 {
+					return nil, false
+				}
+				var out []string
+				for _, blk := range liveBlocks(g) {
+					if ret, ok := blk.Instrs[len(blk.Instrs)-1].(*ssa.Return); ok && blk != g.Recover {
+						rv := returnValue(ret, 0)
+						if cst, ok := rv.(*ssa.Const); ok && cst.IsNil() {
+							continue
+						}
+						r, ok := fieldsOf(rv, depth+1)
+						if !ok {
+							return nil, false
+						}
+						out = append(out, r...)
+					}
+				}
+				return out, len(out) > 0
+			}
+			return nil, false
+		}
+		for _, f := range m.Funcs {
+			eachInstr(f, func(in ssa.Instruction) {
+				call, ok := in.(*ssa.Call)
+				if !ok || call.Call.IsInvoke() || call.Call.StaticCallee() != nil {
+					return
+				}
+				v := m.traceValue(call.Call.Value)
+				fields, ok := fieldsOf(v, 0)
+				if !ok {
+					return
+				}
+				sort.Strings(fields)
+				for _, fn := range fields {
+					handled[fn] = true
+				}
+				n++
+				hs := m.Sym.Of(v).String()
+				var extra []string
+				for _, l := range m.controlCondsDeep(call, 0) {
+					str := l.S.String()
+					if strings.Contains(str, hs) {
+						continue // the nil test of the handler
+					}
+					// a test of the notification's own arguments (which handler belongs to this
+					// status) is not a filter; a test of the monitor's state is
+					if strings.Contains(str, t.Obj().Name()) {
+						extra = append(extra, str)
+					}
+				}
+				c.check(len(extra) == 0, rule, fmt.Sprintf("%s forwards every notification to %s", shortFn(f), strings.Join(dedupStrings(fields), "/")), in,
+					"conditions on the monitor's own state (other than the handler's nil test) that decide whether the handler is called: %v", extra)
+			})
+		}
+	}
+	if len(handled) < 2 {
+		c.undecided(rule, "handler calls of the connection monitor", nil, "calls of %d registered handler fields found in the implementations of ConnectionMonitor (%d call sites); a disconnect and a reconnect handler are expected", len(handled), n)
+	}
 }
 
 func checkC11(c *Ctx) {
 	m := c.M
 	la := m.Locks()
+	monitorForwardsRule(c, "R6")
 
 	// anchors: the time.AfterFunc call sites of the library
 	type afterSite struct {
@@ -651,6 +807,18 @@ func dedupFns(fs []*ssa.Function) []*ssa.Function {
 		if !seen[f] {
 			seen[f] = true
 			out = append(out, f)
+		}
+	}
+	return out
+}
+
+func dedupStrings(in []string) []string {
+	var out []string
+	seen := map[string]bool{}
+	for _, x := range in {
+		if !seen[x] {
+			seen[x] = true
+			out = append(out, x)
 		}
 	}
 	return out
